@@ -207,6 +207,9 @@ func TestC15(t *testing.T) {
 					}
 					_ = tx.Rollback()
 					m.Release(db)
+					if m.Delivered == 0 {
+						continue // the code never made that call (e.g. it prepares the statement once): no fault happened
+					}
 					if werr == nil {
 						t.Fatalf("ToSQL reported success although statement %d of %d failed (mode %d: 0=Exec 1=Prepare)\n%s", k, n, mode, desc())
 					}
